@@ -4,7 +4,7 @@
    statement holds for any scalar structure S (reals, binary64) and for decks of
    any size. *)
 From Coq Require Import List NArith ZArith Bool String Ascii Lia.
-From T4V Require Import Base.Str Base.Scalar C17.Model C17.Proofs C17.ProofsStrings C17.ProofsSteps C17.ProofsClasses C17.ProofsSteps2 C17.ProofsSteps3.
+From T4V Require Import Base.Str Base.Scalar C17.Model C17.Proofs C17.ProofsStrings C17.ProofsSteps C17.ProofsClasses C17.ProofsSteps2 C17.ProofsSteps3 C17.LinkC06.
 Import ListNotations.
 Open Scope string_scope.
 
@@ -526,6 +526,40 @@ Theorem C17_facet_skipped_cells_unchecked : forall T (S : Scalar T) (sm : smap) 
   forallb (not_converted S) cells = true -> stage_convert S sm all cells = Ok tt.
 Proof. exact @stage_convert_skips. Qed.
 Print Assumptions C17_facet_skipped_cells_unchecked.
+
+(* ---------------- linked with C06 (read-only import of C06.Model / C06.ProofsText) ---------------- *)
+
+(* every integer spelling of C06's model is read by Python's int() as modelled
+   here, hence every list of ranges C06 reads is read by C17's parse_ranges with
+   the same result *)
+Theorem C17_reads_c06_ranges_linked :
+  (forall s z, M6.int_of_signed s = Some z -> py_int s = Some z) /\
+  (forall strs bs, Forall2 T6.spells_range strs bs -> parse_ranges strs = Ok bs) /\
+  (forall bs, M6.size bs = bounds_size bs).
+Proof. exact (conj int_of_signed_py_int (conj spelled_ranges_read size_is_bounds_size)). Qed.
+Print Assumptions C17_reads_c06_ranges_linked.
+
+(* the FILL-array fault classes over BOTH models, on C06's hypotheses about the
+   spellings and C06's size: in C06's model the transformation tokens are
+   skipn (size bs) of the numeric tokens (C06_parse_fill_kw_flat); in C17's the
+   same tokens go to the transformation reader.  fill_array_surplus_* (C17) and
+   array_entry_transformation (C06) are two views of this one statement. *)
+Theorem C17_fill_array_surplus_linked : forall T (S : Scalar T) star trs
+    (ft : tok (T:=T)) (rts nts tl : list (tok (T:=T))) (bs : bounds),
+  let n := Z.to_nat (M6.size bs) in
+  Forall2 T6.spells_range (map tsp (ft :: rts)) bs ->
+  Forall (fun b : Z * Z => (fst b <= snd b)%Z) bs ->
+  Forall (fun t => T6.ends_plain t /\ M6.is_num_start t = true /\ M6.has_colon t = false) (map tsp nts) ->
+  (M6.size bs <= Z.of_nat (List.length nts))%Z -> T6.keyword_or_end (map tsp tl) ->
+  Forall (plain (T:=T)) (firstn n nts) ->
+  (forall k, M6.parse_fill_kw (tsp ft) (map tsp rts ++ map tsp nts ++ map tsp tl)%list = M6.Ok k ->
+             M6.fk_params k = map tsp (skipn n nts) /\ M6.fk_rest k = map tsp tl /\
+             M6.fk_bounds k = Some bs) /\
+  parse_fill S star trs (ft :: rts ++ nts ++ tl)%list =
+  bind (fill_params S true star trs (skipn n nts ++ tl)%list)
+       (fun p => Ok (mkFill (Some bs) (map (fun t => Some (tint t)) (firstn n nts)) (fst p), snd p)).
+Proof. exact @fill_array_surplus_linked. Qed.
+Print Assumptions C17_fill_array_surplus_linked.
 
 (* ---------------- which rejections name the problem ---------------- *)
 
